@@ -44,6 +44,18 @@ M = {
    "			return &ssh.Permissions{Extensions: map[string]string{pubKeyExt: string(pk.Marshal())}}, nil", "			lastOffered = pk\n			return &ssh.Permissions{Extensions: map[string]string{pubKeyExt: string(pk.Marshal())}}, nil"),
    ("s/sshswarm/conn.go", "	const pubKeyExt = \"sshswarm-public-key\"", "	const pubKeyExt = \"sshswarm-public-key\"\n	var lastOffered ssh.PublicKey"),
    ("s/sshswarm/conn.go", "	pubKey, err := ssh.ParsePublicKey([]byte(sconn.Permissions.Extensions[pubKeyExt]))\n	if err != nil {\n		sconn.Close()\n		return nil, err\n	}", "	pubKey, err := ssh.ParsePublicKey([]byte(sconn.Permissions.Extensions[pubKeyExt]))\n	if err != nil {\n		sconn.Close()\n		return nil, err\n	}\n	pubKey = lastOffered")],
+ "c14-p2pkeswarm-store-get-without-lock": [("s/p2pkeswarm/store.go",
+   "func (s *store[K, V]) getOrCreate(k K, fn func() V) V {\n	s.mu.Lock()\n	defer s.mu.Unlock()\n	v, exists := s.m[k]", "func (s *store[K, V]) getOrCreate(k K, fn func() V) V {\n	if v, exists := s.m[k]; exists {\n		return v\n	}\n	s.mu.Lock()\n	defer s.mu.Unlock()\n	v, exists := s.m[k]")],
+ "c14-mbapp-removeask-without-lock": [("p/mbapp/asker.go",
+   "func (a *asker) removeAsk(id askID) {\n	a.mu.Lock()\n	defer a.mu.Unlock()\n	delete(a.inFlight, id)", "func (a *asker) removeAsk(id askID) {\n	delete(a.inFlight, id)")],
+ "c14-p2pke-timer-ispending-without-lock": [("p/p2pke/timer.go",
+   "	t.mu.Lock()\n	defer t.mu.Unlock()\n	t.isPending = true\n	t.timer.Reset(d)", "	t.isPending = true\n	t.mu.Lock()\n	defer t.mu.Unlock()\n	t.timer.Reset(d)")],
+ "c14-channel-lastsent-without-lock": [("p/p2pke/channel.go",
+   "func (c *Channel) LastReceived() time.Time {\n	c.mu.RLock()\n	defer c.mu.RUnlock()\n	return c.lastReceived", "func (c *Channel) LastReceived() time.Time {\n	return c.lastReceived")],
+ "c14-cache-count-without-lock": [("p/kademlia/cache.go",
+   "func (kc *Cache[V]) Count() int {\n	kc.mu.RLock()\n	defer kc.mu.RUnlock()\n	return kc.count", "func (kc *Cache[V]) Count() int {\n	return kc.count")],
+ "c14-frag-msgids-without-lock": [("s/fragswarm/fragswarm.go",
+   "	s.mu.Lock()\n	id := s.msgIDs[keyForAddr(addr)]\n	s.msgIDs[keyForAddr(addr)]++\n	s.mu.Unlock()", "	id := s.msgIDs[keyForAddr(addr)]\n	s.msgIDs[keyForAddr(addr)]++")],
  "c05-checkkey-accepts-when-no-key-yet": [("p/p2pke/channel.go",
    "	} else if c.remoteKey.IsZero() && c.params.AcceptKey(pubKey) {\n		return nil\n	}", "	} else if c.remoteKey.IsZero() {\n		return nil\n	}")],
  "c05-onready-without-same-key-comparison": [("p/p2pke/channel.go",
